@@ -41,6 +41,8 @@ func jobsFor(prop, tier string) []*Job {
 			add(&Job{Name: fmt.Sprintf("O3-gcd/n=%d,M=%d", n, gm), Pkg: "roundrobin", Harness: "VerifC01Gcd", Params: p("n", n, "M", gm), Unwind: gm + 4, TimeoutS: 120, IncKind: "z3", Solvers: []string{"z3", "cvc5"},
 				Bounds: fmt.Sprintf("real weightGcd/gcd on n=%d servers, weights symbolic in [0,%d] not all zero: result divides every weight and is a multiple of every common divisor in [2,%d]; loops unwound to termination (unwinding bound M+4 never reached)", n, gm, gm)})
 		}
+		add(&Job{Name: "O5-selections-race-free", Pkg: "roundrobin", Harness: "VerifC09Balancers", Grid: 1e9,
+			Bounds: "lockset analysis of every pair of RoundRobin entry points (ServeHTTP, NextServer, UpsertServer, RemoveServer, ServerWeight, Servers) on one instance: every access to the iterator and the pool is made under the balancer's mutex in excluding mode — the premise under which O4's one-preemption sequentialisation covers all interleavings of two callers; 2 goroutines"})
 		add(&Job{Name: "O4-concurrent-selections/n=2", Pkg: "roundrobin", Harness: "VerifC01Concurrent", Params: p("n", 2), Unwind: 40,
 			Bounds: "two concurrent NextServer calls, the second running to completion at any one lock boundary of the first (two-thread sequentialisation); 2 servers, weights 0..3 not all zero, 0..3 warm-up selections (all symbolic): the pair chosen is the next two selections of the sequential sequence and the state afterwards is the same; native replay by barrier-released stress"})
 		for n := 1; n <= nmax; n++ {
